@@ -126,8 +126,8 @@ pub struct Entry {
     pub corrupt: bool,
 }
 
-pub const DIRS: [&str; 8] = ["m", "map", "data", "sub dir", "@mods", "\u{30C6}\u{30AD}\u{30B9}\u{30C8}", "a.b", "E"];
-pub const FILES: [&str; 12] = ["GameData.bin", "map.bin", "m.bin", "map-x", "x.bin.lz", "file.cmp", "e.cms", "readme", ".hidden", "\u{30C6}.bin", "a+b=c,d~.txt", "@E"];
+pub const DIRS: [&str; 10] = ["m", "map", "data", "sub dir", "@mods", "\u{30C6}\u{30AD}\u{30B9}\u{30C8}", "a.b", "E", "Map", "e_dir"];
+pub const FILES: [&str; 17] = ["GameData.bin", "map.bin", "m.bin", "map-x", "x.bin.lz", "file.cmp", "e.cms", "readme", ".hidden", "\u{30C6}.bin", "a+b=c,d~.txt", "@E", "MAP.BIN", "x.BIN", "e_common.m", "s_x.cmp", "f_"];
 
 /// relative paths of plain components, depth 1..=4, from a small pool so that layers collide
 pub fn path_strategy() -> BoxedStrategy<String> {
